@@ -16,7 +16,20 @@ re-derived from that documentation and compared with the _AXES2TUPLE table.
 
 Round trips are judged on the ROTATION (matrices compared entry-wise; quaternions up to sign;
 Euler triples only through the matrix they generate).  The angle returned by
-align_vectors(return_angle=True) is outside the statement: recorded, never judged.
+align_vectors(return_angle=True) is outside the statement: recorded, never judged (the matrix
+align_vectors returns is not the minimal rotation, so the documented "angle between a and b" is
+not a representation of the returned rotation; no sentence of the statement relates the two).
+
+Round 4 (hunter): input classes added for
+  * rotation angles from 1e-9 up to the library's absolute 1e-8 eigenvalue window (1.4e-4 rad)
+    and axes with a component between 1e-9 and 1e-3 of the others (rotation_from_matrix);
+  * a ladder of middle angles 1e-15 .. 1e-6 from every gimbal configuration, and matrices that did
+    not come out of euler_matrix (reference products: absolute entry noise) - the rotation the
+    returned angles generate is judged with the flat 1e-11 everywhere (the former eps/|cos aj|
+    allowance described the conditioning of the ANGLES, not of the rotation they generate);
+  * axis vectors of any length 1e-100 .. 1e100 (quaternion_about_axis, rotation_matrix);
+  * points / offsets / point arrays of unsigned, signed and float32 dtypes and as Python lists;
+  * arguments given as ndarrays (angles as 0-d arrays) converted twice.
 """
 
 from __future__ import annotations
@@ -35,7 +48,11 @@ RULE = (
     "in [-3,3]^4 (every component dominant, both signs) plus scaled / random ones; the 24 proper signed "
     "permutation matrices; axis-angle over axes x angle grid x points; TRS(+shear) factor sets incl. negative "
     "scales; 2-D and 3-D point arrays x matrix classes (both sides of the 1e-8 identity shortcut) x "
-    "translate flag; planar / rigid helpers; vector pairs (parallel, antiparallel, axis, random, non-unit). "
+    "translate flag; planar / rigid helpers; vector pairs (parallel, antiparallel, axis, random, non-unit); "
+    "rotation angles 1e-9 .. 1e-3 and pi-1e-9 .. pi x axes with a component 1e-9 .. 1e-3 of the others; "
+    "middle angles 1e-15 .. 1e-6 from every gimbal configuration x 24 conventions, matrices given as "
+    "reference products; axis lengths 1e-100 .. 1e100; points of unsigned / signed / float32 dtype and lists; "
+    "every conversion called twice on the same ndarray argument objects (angles as 0-d arrays). "
     "A case is one call chain on one input; distinct = distinct (function, convention, input values); "
     "trivial = identity rotation / all-zero angles / empty point array."
 )
@@ -73,7 +90,10 @@ ASSUMPTIONS = [
     "math.sin / math.cos, numpy matrix products and Fraction arithmetic of the reference are correct",
     "the documented example euler_matrix(a,b,c,'rxyz') == Rx(a).Ry(b).Rz(c) fixes the meaning of the 24 conventions",
     "two rotations are 'the same' when their matrices agree entry-wise within the stated absolute tolerance "
-    "(1e-13 direct constructions, 1e-11 inverse conversions on well-conditioned input)",
+    "(1e-13 direct constructions, 1e-11 inverse conversions on well-conditioned input; the rotation generated by "
+    "extracted Euler angles is well conditioned at any distance from gimbal lock, the individual angles are not)",
+    "axis vectors have a length in 1e-100 .. 1e100 (the squared length is representable); integer-typed points hold "
+    "values their dtype represents exactly",
 ]
 EXHAUSTIVE = {"quick": False, "thorough": False}
 
@@ -109,6 +129,23 @@ def euler_ref(ai, aj, ak, axes):
     return rax(I, ai) @ rax(J, aj) @ rax(K, ak)
 
 
+_Q_GENERIC = None
+
+
+def matrix_product_ref(R):
+    """
+    The same rotation as the result of a matrix product: (R . Q) . Q^T for a fixed generic rotation Q.
+    Equal to R within ~3e-16 per entry, but the small entries now carry ABSOLUTE (~1e-16), not
+    relative, accuracy - as the output of any product of transforms, of quaternion_matrix,
+    rotation_matrix or a Gram-Schmidt pass does.  (euler_matrix and a single Rodrigues rotation keep
+    their small entries relatively accurate: they are single products of sines and cosines.)
+    """
+    global _Q_GENERIC
+    if _Q_GENERIC is None:
+        _Q_GENERIC = rax(2, -1.2) @ rax(1, 0.4) @ rax(0, 0.7)
+    return (R @ _Q_GENERIC) @ _Q_GENERIC.T
+
+
 def axes_tuple_ref(axes):
     """4-tuple encoding derived from the documentation (not from the table)."""
     letters = axes[1:] if axes[0] == "s" else axes[1:][::-1]
@@ -125,7 +162,10 @@ def gimbal_class(aj, axes):
     v = abs(math.sin(aj)) if rep else abs(math.cos(aj))
     if v < 4 * EPS:
         return "exact"
-    if v < 1e-6:
+    # round 4: 1e-3, was 1e-6.  With the flat tolerance a random middle angle 1e-5 from the
+    # configuration fails for the same reason as one 1e-9 away (error eps / v) and has to land under
+    # the same key; at v = 1e-3 that error is 1e-13, two decades below RT.
+    if v < 1e-3:
         return "near"
     return "regular"
 
@@ -137,19 +177,18 @@ def gimbal_measure(aj, axes):
 
 def inverse_tol(aj, axes, base=None):
     """
-    Tolerance for angles extracted from a matrix whose entries are accurate to ~eps ABSOLUTELY
-    (built from a quaternion, after Gram-Schmidt, given by the caller ...).  Away from the gimbal
-    configuration the extraction is well conditioned (base).  At the configuration itself
-    (measure below the code's 4 eps switch) the dedicated branch must be exact to base as well.
-    In between, the first and last angle are atan2 of two entries of size v = |cos aj| (|sin aj|
-    for repeated-axis conventions) and can only be resolved to eps / v: this is conditioning of
-    the representation, not an error.
+    Tolerance on the ROTATION generated by angles that were extracted from a matrix whose entries
+    are accurate to ~eps absolutely (built from a quaternion, after Gram-Schmidt, a product ...).
+
+    Until round 4 this was base + 8 eps / v between the code's 4 eps switch and the regular region
+    (v = |cos aj|, |sin aj| for repeated-axis conventions), on the argument that the first and the
+    last angle are atan2 of two entries of size v.  That is the conditioning of the individual
+    ANGLES; the statement speaks of the rotation they describe, and that is determined by the O(1)
+    entries to ~1e-15 at any distance from the gimbal configuration (an extraction that takes the
+    last angle from what is left after removing the first one achieves it, see notes/C19.md
+    round 4).  The allowance was the monitor accepting the defect, so it is gone: flat base.
     """
-    base = RT if base is None else base
-    v = gimbal_measure(aj, axes)
-    if v < 4 * EPS:
-        return base
-    return base + 8 * EPS / v
+    return RT if base is None else base
 
 
 def quat_matrix_ref(q):
@@ -178,9 +217,27 @@ def hamilton(p, q):
     ], dtype=np.float64)
 
 
+def unit_ref(v):
+    """v / |v| for any representable length (scaled first: v @ v must not under- / overflow)"""
+    u = np.asarray(v, dtype=np.float64)
+    u = u / float(np.abs(u).max())
+    return u / math.sqrt(float(u @ u))
+
+
+def axis_length_class(axis):
+    n = float(np.abs(np.asarray(axis, dtype=np.float64)).max())
+    return "order_1" if 1e-6 <= n <= 1e6 else ("short" if n < 1e-6 else "long")
+
+
+def axis_shape_class(axis):
+    """'small_component': some nonzero component is below 0.05 of the length (an extraction that divides
+    by a component, or thresholds one, behaves differently there); else 'generic'"""
+    u = np.abs(unit_ref(axis))
+    return "small_component" if bool(np.any((u > 0) & (u < 0.05))) else "generic"
+
+
 def rodrigues_ref(angle, axis):
-    u = np.asarray(axis, dtype=np.float64)
-    u = u / math.sqrt(float(u @ u))
+    u = unit_ref(axis)
     K = np.array([[0, -u[2], u[1]], [u[2], 0, -u[0]], [-u[1], u[0], 0]], dtype=np.float64)
     return np.eye(3) + math.sin(angle) * K + (1 - math.cos(angle)) * (K @ K)
 
@@ -205,6 +262,55 @@ def apply_ref(M, P, translate=True):
     return np.asarray(out, dtype=np.float64)
 
 
+def as_form(values, form):
+    """
+    The same numbers in another container / dtype (round 4): None / 'float64' -> float64 ndarray,
+    'list' -> Python list (ints when integral), any numpy dtype name -> ndarray of that dtype.  The
+    caller supplies values that the dtype represents exactly (checked).
+    """
+    if values is None:
+        return None
+    v = np.asarray(values, dtype=np.float64)
+    if form in (None, "float64"):
+        return v
+    if form == "list":
+        return [int(x) if float(x).is_integer() else float(x) for x in v.ravel()] if v.ndim == 1 else \
+            [[int(x) if float(x).is_integer() else float(x) for x in row] for row in v]
+    out = v.astype(form)
+    if not np.array_equal(out.astype(np.float64), v):
+        raise AssertionError("harness: %r not representable as %s" % (v, form))
+    return out
+
+
+def form_class(form):
+    if form in (None, "float64"):
+        return "float64"
+    if form.startswith("uint"):
+        return "unsigned_int"
+    if form.startswith("int"):
+        return "signed_int"
+    return form
+
+
+def form_key(name, form):
+    fc = form_class(form)
+    return "" if fc == "float64" else " %s=%s" % (name, fc)
+
+
+INT_FORMS = ["uint8", "uint16", "uint32", "uint64", "int8", "int16", "int32", "int64", "float32", "list"]
+
+
+def int_point(rng, dim, form):
+    """integer-valued point the form represents exactly; the extreme of a signed type now and then"""
+    if form_class(form) == "signed_int":
+        info = np.iinfo(form)
+        p = rng.integers(-100, 101, size=dim).astype(np.float64)
+        if info.bits <= 16 and rng.random() < 0.4:
+            p[int(rng.integers(dim))] = float(info.min)
+        return p
+    return rng.integers(1, 200, size=dim).astype(np.float64)
+
+
 def dev(A, B):
     A = np.asarray(A, dtype=np.float64)
     B = np.asarray(B, dtype=np.float64)
@@ -224,6 +330,19 @@ def rot_defect(R):
 def conv_key(axes):
     t = axes_tuple_ref(axes)
     return "frame=%s_parity=%d_repetition=%d" % ("rotating" if t[3] else "static", t[1], t[2])
+
+
+def inv_key(axes, gc):
+    """
+    key part (convention class + angle class) for the matrix -> angles direction.  In the regular
+    region the full convention class; at and near the gimbal configuration the extraction branches on
+    `repetition` only (parity and frame merely negate / swap the extracted angles afterwards, and a
+    mistake there shows in the regular region under its own key), so one mechanism gives two keys,
+    not eight.
+    """
+    if gc == "regular":
+        return " %s angles=regular" % conv_key(axes)
+    return " repetition=%d angles=gimbal_%s" % (axes_tuple_ref(axes)[2], gc)
 
 
 # ------------------------------------------------------------------------------------------
@@ -289,6 +408,7 @@ def euler_case(j, tf, axes, form, ai, aj, ak):
     run.case("euler:" + form, axes, ai, aj, ak, nontrivial=not trivial)
     run.state("euler_convention_x_gimbal", (axes, gc))
     kk = " %s angles=%s" % (ck, "gimbal_" + gc if gc != "regular" else "regular")
+    ik = inv_key(axes, gc)
     Rref = euler_ref(ai, aj, ak, axes)
     try:
         M = tf.euler_matrix(ai, aj, ak, arg)
@@ -304,11 +424,25 @@ def euler_case(j, tf, axes, form, ai, aj, ak):
     try:
         a2 = tf.euler_from_matrix(M, arg)
         R2 = euler_ref(a2[0], a2[1], a2[2], axes)
-        j.check("fn=euler_from_matrix%s law=roundtrip_rotation" % kk,
+        j.check("fn=euler_from_matrix%s input=euler_matrix law=roundtrip_rotation" % ik,
                 "angles returned by euler_from_matrix generate a different rotation",
                 dev(R2, Rref), RT, dict(case, returned=list(map(float, a2))))
     except Exception as e:
-        j.exception("fn=euler_from_matrix" + kk, e, case)
+        j.exception("fn=euler_from_matrix" + ik, e, case)
+    # the same rotation as a matrix that did NOT come out of euler_matrix (whose small entries are
+    # single products and keep their relative accuracy): the result of a matrix product, absolute
+    # noise (every non-regular case, one regular case in three: the route only differs from the one
+    # above where entries are small).  Judged against the matrix that was handed over.
+    if gc != "regular" or run.evaluations % 3 == 0:
+        Rmp = matrix_product_ref(Rref)
+        try:
+            a5 = tf.euler_from_matrix(homog(Rmp), arg)
+            R5 = euler_ref(a5[0], a5[1], a5[2], axes)
+            j.check("fn=euler_from_matrix%s input=matrix_product law=roundtrip_rotation" % ik,
+                    "angles returned by euler_from_matrix for a matrix that is the result of a product generate a different rotation",
+                    dev(R5, Rmp), RT, dict(case, matrix=Rmp, returned=list(map(float, a5))))
+        except Exception as e:
+            j.exception("fn=euler_from_matrix%s input=matrix_product" % ik, e, case)
     # angles -> quaternion
     try:
         q = np.asarray(tf.quaternion_from_euler(ai, aj, ak, arg), dtype=np.float64)
@@ -321,8 +455,8 @@ def euler_case(j, tf, axes, form, ai, aj, ak):
         a3 = tf.euler_from_quaternion(q, arg)
         R3 = euler_ref(a3[0], a3[1], a3[2], axes)
         # a matrix built from a quaternion has absolute, not relative, accuracy in its small
-        # entries: see inverse_tol
-        j.check("fn=euler_from_quaternion%s law=roundtrip_rotation" % kk,
+        # entries; the rotation the angles generate is nevertheless determined: see inverse_tol
+        j.check("fn=euler_from_quaternion%s law=roundtrip_rotation" % ik,
                 "angles returned by euler_from_quaternion generate a different rotation",
                 dev(R3, Rref), inverse_tol(aj, axes), dict(case, q=q, returned=list(map(float, a3))))
     except Exception as e:
@@ -339,13 +473,12 @@ def euler_case(j, tf, axes, form, ai, aj, ak):
             j.check(qk + " law=roundtrip_rotation", "quaternion_from_matrix describes a different rotation",
                     dev(quat_matrix_ref(q), Rref), RT, dict(case, q=q, isprecise=precise))
             # composite route matrix -> quaternion -> Euler angles -> matrix: the quaternion carries
-            # ~1e-16 of ABSOLUTE noise, so near the gimbal configuration the angles are only
-            # determined to eps / v - but the ROTATION they generate must still be the same one.
-            # Judged with a flat 1e-6 at (and within 1e-6 of) the gimbal configuration, where a
-            # careful extraction is good to ~1e-8, and with inverse_tol elsewhere.
+            # ~1e-16 of ABSOLUTE noise, so near the gimbal configuration the individual angles are
+            # only determined to eps / v - but the ROTATION they generate must still be the same one
+            # (flat tolerance since round 4, see inverse_tol)
             a4 = tf.euler_from_quaternion(q, arg)
             R4 = euler_ref(a4[0], a4[1], a4[2], axes)
-            tol4 = 1e-6 if gc != "regular" else inverse_tol(aj, axes)
+            tol4 = inverse_tol(aj, axes)
             j.check("fn=euler_from_quaternion_after_quaternion_from_matrix isprecise=%s angles=%s law=roundtrip_rotation"
                     % (precise, "gimbal_" + gc if gc != "regular" else "regular"),
                     "matrix -> quaternion_from_matrix -> euler_from_quaternion gives angles of a different rotation",
@@ -491,34 +624,47 @@ def about_axis_case(j, tf, angle, axis):
     run = j.run
     case = {"section": "about_axis", "angle": angle, "axis": list(map(float, axis))}
     run.case("quaternion:about_axis", angle, np.asarray(axis, dtype=np.float64), nontrivial=angle != 0)
+    al = axis_length_class(axis)
+    run.state("axis_length_class", ("quaternion_about_axis", al))
+    k = "fn=quaternion_about_axis" + ("" if al == "order_1" else " axis_length=%s" % al)
     try:
         q = np.asarray(tf.quaternion_about_axis(angle, axis), dtype=np.float64)
-        j.check("fn=quaternion_about_axis law=unit_norm", "not a unit quaternion", abs(float(q @ q) - 1.0), TIGHT, case)
-        j.check("fn=quaternion_about_axis law=same_rotation_as_axis_angle",
+        j.check(k + " law=unit_norm", "not a unit quaternion", abs(float(q @ q) - 1.0), TIGHT, dict(case, q=q))
+        j.check(k + " law=same_rotation_as_axis_angle",
                 "quaternion_about_axis differs from the axis-angle rotation",
-                dev(quat_matrix_ref(q), rodrigues_ref(angle, axis)), TIGHT, dict(case, q=q))
+                dev(quat_matrix_ref(q), rodrigues_ref(angle, axis)) if float(q @ q) > 0 else float("inf"),
+                TIGHT, dict(case, q=q))
     except Exception as e:
-        j.exception("fn=quaternion_about_axis", e, case)
+        j.exception(k, e, case)
 
 
 # ------------------------------------------------------------------------------------------
 # C. axis-angle, rotation about a point
 
 
-def axis_angle_case(j, tf, angle, axis, point):
+def axis_angle_case(j, tf, angle, axis, point, pform=None):
     run = j.run
     axis = np.asarray(axis, dtype=np.float64)
     case = {"section": "axis_angle", "angle": angle, "axis": axis.tolist(),
-            "point": None if point is None else list(map(float, point))}
+            "point": None if point is None else list(map(float, point)), "point_form": pform}
+    if pform is not None:
+        run.state("point_form", ("rotation_matrix", pform))
     s_ang = abs(math.sin(angle / 2))
-    aclass = "zero" if s_ang < 1e-12 else ("tiny" if s_ang < 1e-6 else ("pi" if abs(math.cos(angle / 2)) < 1e-6 else "regular"))
+    aclass = "zero" if s_ang < 1e-12 else ("tiny" if s_ang < 1e-6 else ("small" if s_ang < 1e-3 else (
+        "pi" if abs(math.cos(angle / 2)) < 1e-6 else "regular")))
+    al = axis_length_class(axis)
+    ash = axis_shape_class(axis)
     run.state("axis_angle_class", (aclass, point is not None))
-    run.case("axis_angle", angle, axis, None if point is None else np.asarray(point, dtype=np.float64),
+    run.state("axis_angle_x_axis_shape", (aclass, ash))
+    run.state("axis_length_class", ("rotation_matrix", al))
+    run.case("axis_angle", angle, axis, None if point is None else np.asarray(point, dtype=np.float64), pform,
              nontrivial=aclass != "zero")
     Rref = rodrigues_ref(angle, axis)
-    pk = " point=%s" % ("yes" if point is not None else "no")
+    pk = " point=%s" % ("yes" if point is not None else "no") + form_key("point_dtype", pform)
+    if al != "order_1":
+        pk += " axis_length=%s" % al
     try:
-        M = np.asarray(tf.rotation_matrix(angle, axis, point), dtype=np.float64)
+        M = np.asarray(tf.rotation_matrix(angle, axis, as_form(point, pform) if pform else point), dtype=np.float64)
     except Exception as e:
         j.exception("fn=rotation_matrix" + pk, e, case)
         return
@@ -536,12 +682,18 @@ def axis_angle_case(j, tf, angle, axis, point):
         j.check("fn=rotation_matrix point=yes law=point_fixed", "rotating about a point moved that point",
                 dev(apply_ref(M, p[None])[0], p), 16 * EPS * psc, case)
         # and a second point on the axis
-        p2 = p + 2.5 * axis / math.sqrt(float(axis @ axis))
+        p2 = p + 2.5 * unit_ref(axis)
         j.check("fn=rotation_matrix point=yes law=axis_fixed", "a point of the rotation axis moved",
                 dev(apply_ref(M, p2[None])[0], p2), 32 * EPS * (psc + 2.5), case)
-    # matrix -> (angle, axis, point) -> matrix
-    if aclass == "tiny":
-        return  # the axis of a rotation by ~1e-9 is not recoverable from float64 entries
+    # matrix -> (angle, axis, point) -> matrix.  Judged for every angle: the law is about the
+    # TRANSFORM the returned triple rebuilds (for a rotation by 1e-9 the skew part of the matrix still
+    # holds the axis to full relative accuracy; until round 4 this class was skipped as "axis not
+    # recoverable" and the others had 1e-9, which hid errors of 4e-7 at 1e-9 rad and 2e-9 for axes
+    # with a component near the code's 1e-8 switch).  Inverse conversion on well-conditioned input: RT.
+    # key: the angle class with tiny folded into small (one window), the axis shape; the rotation block
+    # and the point are judged separately (the point only once the rotation is right) so that the key
+    # says which of the two extractions failed without doubling every key by point=yes/no
+    rk = "fn=rotation_from_matrix angle=%s axis=%s%s" % ("small" if aclass == "tiny" else aclass, ash, form_key("point_dtype", pform))
     try:
         a2, d2, p2 = tf.rotation_from_matrix(M)
         M2 = np.asarray(tf.rotation_matrix(a2, d2, p2), dtype=np.float64)
@@ -549,24 +701,30 @@ def axis_angle_case(j, tf, angle, axis, point):
         if point is not None:
             pp = np.asarray(point, dtype=np.float64)
             Mref[:3, 3] = pp - Rref @ pp
-        j.check("fn=rotation_from_matrix%s angle=%s law=roundtrip_transform" % (pk, aclass),
-                "(angle, axis, point) from rotation_from_matrix rebuild a different transform",
-                dev(M2, Mref), 1e-9 * psc, dict(case, returned=[float(a2), list(map(float, d2)), list(map(float, p2))]))
+        ret = dict(case, returned=[float(a2), list(map(float, d2)), list(map(float, p2))])
+        if j.check(rk + " law=roundtrip_rotation", "(angle, axis) from rotation_from_matrix rebuild a different rotation",
+                   dev(M2[:3, :3], Rref), RT, ret):
+            j.check(rk + " law=roundtrip_point", "the point from rotation_from_matrix rebuilds a different transform",
+                    dev(M2, Mref), RT * psc, ret)
     except Exception as e:
-        j.exception("fn=rotation_from_matrix%s angle=%s" % (pk, aclass), e, case)
+        j.exception(rk, e, case)
 
 
-def transform_around_case(j, tf, M, point):
+def transform_around_case(j, tf, M, point, pform=None):
     run = j.run
     M = np.asarray(M, dtype=np.float64)
     p = np.asarray(point, dtype=np.float64)
     d = len(p)
-    case = {"section": "transform_around", "matrix": M.tolist(), "point": p.tolist()}
-    run.case("transform_around:%dd" % d, M, p)
+    case = {"section": "transform_around", "matrix": M.tolist(), "point": p.tolist(), "point_form": pform}
+    run.case("transform_around:%dd" % d, M, p, pform)
+    if pform is not None:
+        run.state("point_form", ("transform_around", pform))
+    # the dtype of the point acts before the dimension matters: one key per dtype class
+    k = "fn=transform_around" + (" dim=%d" % d if form_class(pform) == "float64" else form_key("point_dtype", pform))
     try:
-        T = np.asarray(tf.transform_around(M, p), dtype=np.float64)
+        T = np.asarray(tf.transform_around(M, as_form(p, pform)), dtype=np.float64)
     except Exception as e:
-        j.exception("fn=transform_around dim=%d" % d, e, case)
+        j.exception(k, e, case)
         return
     A = np.eye(d + 1, dtype=np.longdouble)
     A[:d, d] = -p
@@ -574,10 +732,10 @@ def transform_around_case(j, tf, M, point):
     B[:d, d] = p
     want = np.asarray(B @ M.astype(np.longdouble) @ A, dtype=np.float64)
     sc = 1.0 + float(np.abs(p).sum()) * float(np.abs(M).max()) + float(np.abs(M).max())
-    j.check("fn=transform_around dim=%d law=T(p).M.T(-p)" % d, "transform_around is not translate . M . translate^-1",
-            dev(T, want), 16 * EPS * sc, case)
-    if np.all(M[:d, d] == 0):
-        j.check("fn=transform_around dim=%d law=point_fixed" % d, "the point a linear map is applied around moved",
+    ok = j.check(k + " law=T(p).M.T(-p)", "transform_around is not translate . M . translate^-1",
+                 dev(T, want), 16 * EPS * sc, case)
+    if np.all(M[:d, d] == 0) and (ok or form_class(pform) == "float64"):
+        j.check(k + " law=point_fixed", "the point a linear map is applied around moved",
                 dev(apply_ref(T, p[None])[0], p), 32 * EPS * sc, case)
 
 
@@ -616,11 +774,15 @@ def compose_case(j, tf, scale, shear, angles, translate):
         return
     ret = {"scale": list(map(float, s2)), "shear": list(map(float, z2)), "angles": list(map(float, a2)),
            "translate": list(map(float, t2)), "perspective": list(map(float, p2))}
-    # the rotation is extracted after a Gram-Schmidt pass (absolute entry accuracy): inverse_tol;
-    # in the near-gimbal band the middle angle comes from arcsin of an entry within eps of 1 and is
-    # only good to sqrt(2 eps)
-    tol = (inverse_tol(angles[1], "sxyz") + (3e-8 if gc == "near" else 0.0)) * msc
+    # the rotation is extracted after a Gram-Schmidt pass (absolute entry accuracy); the rotation
+    # the angles generate is determined all the same (inverse_tol).  Until round 4 the near-gimbal
+    # band had eps/|cos aj| + 3e-8 on top: the first excused the defect, the second belonged to the
+    # arcsin that 3e5d0cd replaced by atan2.
+    tol = inverse_tol(angles[1], "sxyz") * msc
     gk = " angles=%s" % ("gimbal_" + gc if gc != "regular" else "regular")
+    if gc == "near":
+        # near the gimbal configuration every scale / shear class takes the same path
+        sk = ""
     try:
         M2 = np.asarray(tf.compose_matrix(s2, z2, a2, t2, p2), dtype=np.float64)
         j.check("fn=decompose_matrix%s%s law=recompose_same_matrix" % (sk, gk),
@@ -658,14 +820,21 @@ def points_case(j, tf, P, M, mclass, translate, container="ndarray"):
     run.state("identity_shortcut_side", "inside" if shortcut else ("just_outside" if near_id < 1e-5 else "far"))
     run.case("transform_points:%dd" % d, P, M, translate, container,
              nontrivial=len(P) > 0 and mclass != "identity")
-    arg = P if container == "ndarray" else (P.tolist() if container == "list" else tuple(map(tuple, P.tolist())))
+    if container in ("ndarray", "list", "tuple"):
+        arg = P if container == "ndarray" else (P.tolist() if container == "list" else tuple(map(tuple, P.tolist())))
+        fk = ""
+    else:
+        # round 4: the point array in an integer / float32 dtype (container is the dtype name)
+        arg = as_form(P, container)
+        fk = form_key("points_dtype", container)
+        run.state("point_form", ("transform_points", container))
+    k = "fn=transform_points dim=%d class=%s translate=%s%s" % (d, mclass.split(":")[0], translate, fk)
     try:
         got = tf.transform_points(arg, M, translate=translate)
     except Exception as e:
-        j.exception("fn=transform_points dim=%d class=%s translate=%s" % (d, mclass.split(":")[0], translate), e, case)
+        j.exception(k, e, case)
         return
     got = np.asarray(got)
-    k = "fn=transform_points dim=%d class=%s translate=%s" % (d, mclass.split(":")[0], translate)
     if got.shape != P.shape:
         j.check(k + " law=shape_kept", "result has a different shape", float("inf"), 1.0, case)
         return
@@ -690,14 +859,20 @@ def points_case(j, tf, P, M, mclass, translate, container="ndarray"):
 # F. planar / rigid helpers
 
 
-def planar_case(j, tf, offset, theta, point, scale, conv):
+def planar_case(j, tf, offset, theta, point, scale, conv, pform=None):
     run = j.run
-    case = {"section": "planar", "offset": offset, "theta": theta, "point": point, "scale": scale}
-    run.case("planar_matrix", offset, theta, point, scale, nontrivial=bool(theta) or offset is not None)
+    case = {"section": "planar", "offset": offset, "theta": theta, "point": point, "scale": scale, "point_form": pform}
+    run.case("planar_matrix", offset, theta, point, scale, pform, nontrivial=bool(theta) or offset is not None)
+    if pform is not None:
+        run.state("point_form", ("planar_matrix", pform))
     k = "fn=planar_matrix offset=%s point=%s scale=%s" % (
         "yes" if offset is not None else "no", "yes" if point is not None else "no", "yes" if scale is not None else "no")
+    if form_class(pform) != "float64":
+        k = "fn=planar_matrix" + form_key("point_dtype", pform)  # the dtype acts before the options matter
     try:
-        M = np.asarray(tf.planar_matrix(offset=offset, theta=theta, point=point, scale=scale), dtype=np.float64)
+        # round 4: the point and the offset also as unsigned / signed / float32 arrays and lists
+        M = np.asarray(tf.planar_matrix(offset=as_form(offset, pform) if pform else offset, theta=theta,
+                                        point=as_form(point, pform) if pform else point, scale=scale), dtype=np.float64)
     except Exception as e:
         j.exception(k, e, case)
         return None
@@ -726,11 +901,11 @@ def planar_case(j, tf, offset, theta, point, scale, conv):
     pt = np.zeros(2) if point is None else np.asarray(point, dtype=np.float64)
     want_t = S @ (R @ (-pt) + off + pt)
     sc = msc * (1.0 + float(np.abs(pt).sum()) + float(np.abs(off).sum()))
-    j.check(k + " law=translation", "translation column is not scale.(offset + point - R.point)",
-            dev(M[:2, 2], want_t), 16 * EPS * sc, case)
+    t_ok = j.check(k + " law=translation", "translation column is not scale.(offset + point - R.point)",
+                   dev(M[:2, 2], want_t), 16 * EPS * sc, case)
     j.check(k + " law=last_row", "last row is not [0,0,1]", dev(M[2], [0, 0, 1]), 0.0, case)
-    if point is not None and offset is None and scale is None:
-        j.check("fn=planar_matrix law=point_fixed", "rotating about a point moved that point",
+    if point is not None and offset is None and scale is None and (t_ok or form_class(pform) == "float64"):
+        j.check("fn=planar_matrix%s law=point_fixed" % form_key("point_dtype", pform), "rotating about a point moved that point",
                 dev(apply_ref(M, pt[None])[0], pt), 32 * EPS * sc, case)
     return M
 
@@ -866,7 +1041,12 @@ def align_case(j, geometry, a, b, cls, angle_stats):
     j.check(k + " law=no_translation", "matrix has a translation / bad last row",
             max(dev(M[:3, 3], [0, 0, 0]), dev(M[3], [0, 0, 0, 1])), 0.0, case)
     j.check(k + " law=return_angle_same_matrix", "return_angle=True returns a different matrix", dev(M2, M), 0.0, case)
-    # the returned ANGLE is outside the statement: recorded only
+    # the returned ANGLE is outside the statement: recorded only.  Re-examined in round 4: the matrix
+    # align_vectors returns (bu . au^T of two SVD bases) is NOT the minimal rotation - its own rotation
+    # angle differs from the angle between a and b in 998 of 1000 random pairs - so the documented
+    # "angle between `a` and `b`" is a property of the two input vectors, not a representation of the
+    # returned rotation, and the statement (rotations, matrices, points) has no sentence that ties it
+    # to anything.  It is wrong all the same (docstring): notes/patches/C19/6.diff.
     true = math.acos(max(-1.0, min(1.0, float(ua @ ub))))
     angle_stats["n"] += 1
     if abs(float(ang) - true) > 1e-6:
@@ -953,7 +1133,7 @@ def matrix_input_case(j, tf, R, tag):
             gc = gimbal_class(a[1], axes)
             run.state("euler_convention_x_gimbal_from_matrix", (axes, gc))
             tol = inverse_tol(a[1], axes)
-            j.check("fn=euler_from_matrix %s input=%s law=roundtrip_rotation" % (ck, tag),
+            j.check("fn=euler_from_matrix%s input=%s law=roundtrip_rotation" % (inv_key(axes, gc), tag),
                     "angles from euler_from_matrix generate a different rotation",
                     dev(euler_ref(a[0], a[1], a[2], axes), R), tol, dict(case, axes=axes, returned=list(map(float, a))))
         except Exception as e:
@@ -973,7 +1153,7 @@ def matrix_input_case(j, tf, R, tag):
             a2, d2, p2 = tf.rotation_from_matrix(M)
             j.check("fn=rotation_from_matrix point=no input=%s law=roundtrip_transform" % tag,
                     "(angle, axis, point) rebuild a different transform",
-                    dev(tf.rotation_matrix(a2, d2, p2), M), 1e-9, dict(case, returned=[float(a2), list(map(float, d2))]))
+                    dev(tf.rotation_matrix(a2, d2, p2), M), RT, dict(case, returned=[float(a2), list(map(float, d2))]))
         except Exception as e:
             j.exception("fn=rotation_from_matrix point=no input=%s" % tag, e, case)
 
@@ -1022,6 +1202,99 @@ def result_ownership_case(j, tf):
                 dev(second, want), 0.0, case)
 
 
+def _flat(r):
+    if isinstance(r, (tuple, list)):
+        return np.concatenate([_flat(x) for x in r]) if len(r) else np.zeros(0)
+    return np.asarray(r, dtype=np.float64).ravel()
+
+
+def repeat_call_case(j, tf, geometry, k2m):
+    """
+    Round 4.  Every conversion called twice on the SAME argument objects, all arguments being
+    ndarrays (scalars - angles, fractions, factors - as 0-d arrays, the way `arr[..., 0]`,
+    `np.asarray(x)` or `np.squeeze` hand them out).  The two results must be identical: a conversion
+    that edits its arguments converts something else the second time, and the caller's other
+    conversions of those objects (euler_matrix of the same three angles ...) no longer describe the
+    same rotation.  Twin of results_owned_by_caller.  Whether the arguments were written to is
+    recorded (state `arguments_written`), the judged law is the repeat call.
+    """
+    run = j.run
+
+    def A(x):
+        return np.array(x, dtype=np.float64)
+
+    R = euler_ref(0.3, -1.1, 2.0, "sxyz")
+    M = homog(R, [1.0, 2.0, 3.0])
+    Mn = M.copy()
+    Mn[:3, :3] += 1e-9 * np.arange(9).reshape(3, 3)
+    q = [0.5, -0.5, 0.5, 0.5]
+    q1 = [0.1, 0.7, -0.3, 0.64]
+    q2 = [-0.8, 0.1, 0.5, -0.3]  # obtuse to q1: the shortest-path branch negates one end
+    P = [[1.0, 2.0, 3.0], [-4.0, 5.5, 0.25]]
+    M2 = [[0.8, -0.6, 3.0], [0.6, 0.8, -1.0], [0.0, 0.0, 1.0]]
+    calls = []
+    for ax in AXES_ALL:
+        calls.append(("quaternion_from_euler:" + ax, lambda a, b, c, ax=ax: tf.quaternion_from_euler(a, b, c, ax),
+                      lambda: [A(0.4), A(0.5), A(0.6)], "ndarray_0d"))
+    for ax in ("sxyz", "rzyx", "szxz", "ryxy"):
+        calls.append(("euler_matrix:" + ax, lambda a, b, c, ax=ax: tf.euler_matrix(a, b, c, ax),
+                      lambda: [A(0.4), A(0.5), A(0.6)], "ndarray_0d"))
+        calls.append(("euler_from_matrix:" + ax, lambda m, ax=ax: tf.euler_from_matrix(m, ax), lambda: [A(M)], "ndarray"))
+        calls.append(("euler_from_quaternion:" + ax, lambda x, ax=ax: tf.euler_from_quaternion(x, ax), lambda: [A(q)], "ndarray"))
+    calls += [
+        ("quaternion_matrix", tf.quaternion_matrix, lambda: [A(q1)], "ndarray"),
+        ("quaternion_matrix:nonunit", tf.quaternion_matrix, lambda: [A(q1) * 3.0], "ndarray"),
+        ("quaternion_from_matrix:eigh", lambda m: tf.quaternion_from_matrix(m, isprecise=False), lambda: [A(M)], "ndarray"),
+        ("quaternion_from_matrix:precise", lambda m: tf.quaternion_from_matrix(m, isprecise=True), lambda: [A(M)], "ndarray"),
+        ("quaternion_about_axis", tf.quaternion_about_axis, lambda: [A(0.9), A([1.0, 2.0, -2.0])], "ndarray_0d"),
+        ("rotation_matrix", tf.rotation_matrix, lambda: [A(0.7), A([0.0, 3.0, 4.0]), A([1.0, 2.0, 3.0])], "ndarray_0d"),
+        ("rotation_from_matrix", tf.rotation_from_matrix, lambda: [A(M)], "ndarray"),
+        ("quaternion_multiply", tf.quaternion_multiply, lambda: [A(q1), A(q2)], "ndarray"),
+        ("quaternion_conjugate", tf.quaternion_conjugate, lambda: [A(q1)], "ndarray"),
+        ("quaternion_inverse", tf.quaternion_inverse, lambda: [A(q1) * 2.0], "ndarray"),
+        ("quaternion_slerp:shortest", lambda a, b, f: tf.quaternion_slerp(a, b, f), lambda: [A(q1), A(q2), A(0.3)], "ndarray_0d"),
+        ("quaternion_slerp:long", lambda a, b, f: tf.quaternion_slerp(a, b, f, 0, False), lambda: [A(q1) * 2.0, A(q2), A(0.3)], "ndarray_0d"),
+        ("compose_matrix", tf.compose_matrix,
+         lambda: [A([2.0, 0.5, 3.0]), A([0.3, -0.4, 0.9]), A([0.3, -1.1, 2.0]), A([1.0, 2.0, 3.0])], "ndarray"),
+        ("decompose_matrix", tf.decompose_matrix, lambda: [A(M) * np.array([[2.0], [2.0], [2.0], [1.0]])], "ndarray"),
+        ("transform_points:3d", tf.transform_points, lambda: [A(P), A(M)], "ndarray"),
+        ("transform_points:2d", tf.transform_points, lambda: [A(P)[:, :2].copy(), A(M2)], "ndarray"),
+        ("transform_around:3d", tf.transform_around, lambda: [A(homog(R)), A([1.0, 2.0, 3.0])], "ndarray"),
+        ("transform_around:2d", tf.transform_around, lambda: [A(M2), A([4.0, -1.0])], "ndarray"),
+        ("planar_matrix", lambda o, t, pt, sc: tf.planar_matrix(offset=o, theta=t, point=pt, scale=sc),
+         lambda: [A([1.0, 2.0]), A(0.4), A([3.0, -1.0]), A(2.0)], "ndarray_0d"),
+        ("planar_matrix_to_3D", tf.planar_matrix_to_3D, lambda: [A(M2)], "ndarray"),
+        ("scale_and_translate", lambda sc, t: tf.scale_and_translate(scale=sc, translate=t),
+         lambda: [A([1.0, 2.0, 3.0]), A([0.5, 0.0, -7.0])], "ndarray"),
+        ("translation_matrix", tf.translation_matrix, lambda: [A([1.0, -2.0, 3.0])], "ndarray"),
+        ("scale_matrix", tf.scale_matrix, lambda: [A(2.5), A([1.0, 0.0, 2.0])], "ndarray_0d"),
+        ("is_rigid", tf.is_rigid, lambda: [A(M)], "ndarray"),
+        ("fix_rigid", tf.fix_rigid, lambda: [A(Mn)], "ndarray"),
+        ("align_vectors", geometry.align_vectors, lambda: [A([1.0, 2.0, 3.0]), A([-2.0, 0.5, 1.0])], "ndarray"),
+        ("plane_transform", geometry.plane_transform, lambda: [A([1.0, 2.0, 3.0]), A([-2.0, 0.5, 1.0])], "ndarray"),
+        ("kwargs_to_matrix:quaternion", lambda x, t: k2m(quaternion=x, translation=t), lambda: [A(q1), A([1.0, 2.0, 3.0])], "ndarray"),
+        ("kwargs_to_matrix:axis_angle", lambda ax, an, t: k2m(axis=ax, angle=an, translation=t),
+         lambda: [A([0.0, 3.0, 4.0]), A(0.7), A([1.0, 2.0, 3.0])], "ndarray_0d"),
+    ]
+    for name, fn, factory, kind in calls:
+        case = {"section": "repeat_call", "fn": name}
+        fname = name.split(":")[0]
+        k = "fn=%s args=%s law=repeat_call_same_result" % (fname, kind)
+        args = factory()
+        snap = [a.copy() for a in args]
+        try:
+            first = _flat(fn(*args)).copy()
+            second = _flat(fn(*args)).copy()
+        except Exception as e:
+            j.exception(k, e, case)
+            continue
+        written = any(not np.array_equal(a, b) for a, b in zip(args, snap))
+        run.case("repeat_call:" + name, name)
+        run.state("arguments_written", (fname, written))
+        j.check(k, "the second call on the same argument objects returns another result: the first call wrote to its arguments",
+                dev(second, first), 0.0, dict(case, arguments_before=snap, arguments_after=args, first=first, second=second))
+
+
 def good_axis(rng):
     """unit-ish axis whose components are 0 or >= 0.05 (rotation_from_matrix divides by a component
     it compares with 1e-8; the generator stays far from that threshold)"""
@@ -1048,6 +1321,7 @@ def workload(run):
     # ---- tables
     euler_table_check(j, tf)
     result_ownership_case(j, tf)
+    repeat_call_case(j, tf, geometry, kwargs_to_matrix)
 
     # ---- exact matrices: the 24 cube rotations (every one is a gimbal case for some convention)
     for R in signed_permutation_rotations():
@@ -1098,6 +1372,50 @@ def workload(run):
             about_axis_case(j, tf, ang, ax)
             for pt in (None, [1.0, 0.0, 0.0], rng.uniform(-5, 5, size=3), [100.0, -200.0, 50.0]):
                 axis_angle_case(j, tf, ang, ax, pt)
+    # round 4: small angles (both sides of the library's absolute 1e-8 eigenvalue window = 1.4e-4 rad,
+    # down to 1e-9) and angles next to pi x axes of every shape: filtered, unfiltered random, and with
+    # one or two components 1e-9 .. 1e-3 of the others (both sides of the code's 1e-8 component switch)
+    angle_small = [1e-3, 1.5e-4, 1.3e-4, 1e-4, 1e-5, 1e-6, 1e-7, 1e-8, 1e-9, -1e-5, -1e-7, 2 * PI - 1e-5,
+                   PI - 1e-5, PI - 1e-7, -PI + 1e-6]
+
+    def small_component_axis():
+        v = rng.normal(size=3)
+        v[np.abs(v) < 0.3] = 0.3
+        k = int(rng.integers(3))
+        v[k] = float(rng.choice([-1, 1])) * 10.0 ** -int(rng.choice([3, 5, 7, 8, 9])) * float(rng.uniform(1, 9))
+        if rng.random() < 0.3:
+            v[(k + 1) % 3] = float(rng.choice([-1, 1])) * 10.0 ** -int(rng.choice([7, 8, 9])) * float(rng.uniform(1, 9))
+        return v
+
+    n_ax = 4 if quick else 30
+    # fixed ones first (keys must not depend on the seed): the last component just above the code's 1e-8
+    # switch, or below it with the middle one just above
+    small_fixed = [np.array(v, dtype=np.float64) for v in
+                   ([1.0, 1.43, 5e-8], [-0.3, 0.9, 2e-7], [1.0, 6e-8, 0.0], [1.0, 3e-7, 2e-9], [2e-9, -1.0, 0.5])]
+    shaped = (axes_fixed[:3] + axes_fixed[8:] + small_fixed + [good_axis(rng) for _ in range(n_ax)] + [rng.normal(size=3) for _ in range(n_ax)]
+              + [small_component_axis() for _ in range(2 * n_ax)])
+    for a_n, ax in enumerate(shaped):
+        sm = axis_shape_class(ax) == "small_component"
+        for ang in angle_small + ([0.3, -1.1, 2.5, PI, PI / 2, float(rng.uniform(-7, 7))] if sm else []):
+            idx += 1
+            if not run.mine(idx):
+                continue
+            for pt in (None, rng.uniform(-5, 5, size=3), rng.uniform(-500, 500, size=3)):
+                axis_angle_case(j, tf, ang, ax, pt)
+    # round 4: the axis as a vector of any length (both functions normalise it themselves)
+    for scale in (1e-8, 1e-12, 1e-15, 3e-16, 1e-16, 1e-20, 1e-100, 1e8, 1e20, 1e100):
+        for ax in axes_fixed[:2] + axes_fixed[5:6] + axes_fixed[8:] + [good_axis(rng) for _ in range(2 if quick else 20)]:
+            for ang in (0.3, PI / 2, -2.5, PI):
+                idx += 1
+                if not run.mine(idx):
+                    continue
+                about_axis_case(j, tf, ang, ax * scale)
+                axis_angle_case(j, tf, ang, ax * scale, None)
+                axis_angle_case(j, tf, ang, ax * scale, [1.0, -2.0, 0.5])
+    # round 4: the point as an array of unsigned / signed / float32 dtype or a list of ints
+    for form in INT_FORMS:
+        for _ in range(3 if quick else 30):
+            axis_angle_case(j, tf, float(rng.uniform(-3, 3)), good_axis(rng), int_point(rng, 3, form), pform=form)
     for d in (2, 3):
         for tag, M in gmat.matrices(rng, dim=d):
             if tag.startswith("near_identity") and not tag.endswith(("1e-07", "1e-05")):
@@ -1107,12 +1425,21 @@ def workload(run):
                 L = M.copy()
                 L[:d, d] = 0
                 transform_around_case(j, tf, L, pt)
+            if tag.split(":")[0] in ("rigid", "similarity", "mirror_rot", "aniso_rot", "shear"):
+                L = M.copy()
+                L[:d, d] = 0
+                for form in INT_FORMS:
+                    transform_around_case(j, tf, L, int_point(rng, d, form), form)
+                    transform_around_case(j, tf, M, int_point(rng, d, form), form)
 
     # ---- compose / decompose
     scales = [(1, 1, 1), (2, 0.5, 3), (0.3, 0.3, 0.3), (-1, -1, -1), (-2, -0.5, -3), (-1, 2, 3), (1, -2, 0.5), (-1, -2, 3), (1.5, 2, -0.7)]
     shears = [(0, 0, 0), (0.5, 0, 0), (0, -0.7, 0), (0, 0, 1.2), (0.3, -0.4, 0.9)]
     ang_sets = [(0, 0, 0), (0.3, -1.1, 2.5), (1, 1.2, -3), (0.4, PI / 2, 0.0), (0.4, -PI / 2, 0.0), (0.7, PI / 2 - 1e-9, -0.2),
                 (-2.0, -PI / 2 + 1e-9, 0.9), (PI, 0.2, -PI / 2), (0.1, PI / 2 - 1e-3, 0.2), (3.0, 2.0, 1.0), (-3.0, -1.4, 3.1)]
+    # round 4: a ladder of distances from the gimbal configuration (1e-9 and 1e-3 are above)
+    for dlt in (3e-15, 1e-13, 1e-11, 1e-7, 1e-5):
+        ang_sets += [(0.7, PI / 2 - dlt, -0.2), (-2.0, -PI / 2 + dlt, 0.9), (2.9, PI / 2 + dlt, 1.3)]
     for sc, sh, an in itertools.product(scales, shears, ang_sets):
         idx += 1
         if not run.mine(idx):
@@ -1134,6 +1461,13 @@ def workload(run):
                     points_case(j, tf, P, M, tag, tr)
             points_case(j, tf, clouds[1], M, tag, True, "list")
             points_case(j, tf, clouds[1], M, tag, False, "tuple")
+            # round 4: integer-valued clouds in the dtypes image / voxel / index code hands over
+            for form in ("uint8", "uint16", "uint64", "int8", "int32", "float32"):
+                Pi = rng.integers(0, 100, size=(3, d)).astype(np.float64)
+                if form.startswith("int"):
+                    Pi -= 50.0
+                    Pi[0, 0] = float(np.iinfo(form).min) if form == "int8" else Pi[0, 0]
+                points_case(j, tf, Pi, M, tag, bool(rng.integers(2)), form)
 
     # ---- planar helpers
     conv = {}
@@ -1145,6 +1479,13 @@ def workload(run):
                     M2 = planar_case(j, tf, offset, theta, point, scale, conv)
                     if M2 is not None and scale is None:
                         planar3d_case(j, tf, M2, P3)
+    # round 4: the point (and the offset) of unsigned / signed / float32 dtype or a list of ints
+    for form in INT_FORMS:
+        for theta in (PI / 6, -1.1, PI, 2.5):
+            for with_offset in (False, True):
+                pt = list(map(float, int_point(rng, 2, form)))
+                off = list(map(float, int_point(rng, 2, form))) if with_offset else None
+                planar_case(j, tf, off, theta, pt, None, conv, pform=form)
     for tag, M in gmat.matrices(rng, dim=2):
         planar3d_case(j, tf, M, P3)
     for scale in (1, 1.0, 2.0, 0.5, -1.5, [1, 2, 3], [0.5, 1.0, -2.0], np.array([1.0, 1.0, 1.0])):
@@ -1191,7 +1532,27 @@ def workload(run):
     run.note("align_vectors_returned_angle_not_judged", stats)
     run.note("planar_matrix_theta_sense_not_judged", conv.get("sense"))
 
+    # ---- round 4: ladder of distances from every gimbal configuration x 24 conventions (1e-9 is in
+    # the grid below).  The smallest step stays 3x above the code's 4 eps switch so that the class of
+    # a case (and with it the key) does not depend on which side a rounding puts it.
+    run.note("elapsed_before_gimbal_ladder", round(run.elapsed(), 1))
+    ladder = [3e-15, 1e-14, 1e-13, 1e-12, 1e-10, 1e-8, 1e-7, 1e-6]
+    pairs = [(0.3, -1.1), (2.0, -0.4), (-2.5, 3.0)]
+    for a_i, axes in enumerate(AXES_ALL):
+        rep = axes[1] == axes[3]
+        for base in ([0.0, PI, -PI] if rep else [PI / 2, -PI / 2]):
+            for sgn in (1.0, -1.0):
+                for dlt in ladder:
+                    idx += 1
+                    if not run.mine(idx):
+                        continue
+                    for (ai, ak) in pairs + [tuple(float(x) for x in rng.uniform(-PI, PI, size=2))]:
+                        aj = base + sgn * dlt
+                        run.state("gimbal_ladder", (axes, dlt))
+                        euler_case(j, tf, axes, "string" if (a_i + int(sgn)) % 2 else "tuple", ai, aj, ak)
+
     # ---- Euler conventions x angle grid (the bulk; sharded by enumeration index)
+    run.note("elapsed_before_euler_grid", round(run.elapsed(), 1))
     ai_grid = AI_GRID_QUICK if quick else AJ_GRID
     done = 0
     total = 0
@@ -1210,6 +1571,7 @@ def workload(run):
             euler_case(j, tf, axes, "string" if (n + a_i) % 2 == 0 else "tuple", ai, aj, ak)
             done += 1
     run.count("euler_grid_cases", done)
+    run.note("elapsed_after_euler_grid", round(run.elapsed(), 1))
     if cut:
         run.count("euler_grid_cut_short")
         if quick:
@@ -1238,6 +1600,8 @@ def replay(run, case):
         euler_table_check(j, tf)
     elif sec == "ownership":
         result_ownership_case(j, tf)
+    elif sec == "repeat_call":
+        repeat_call_case(j, tf, geometry, kwargs_to_matrix)
     elif sec == "quaternion":
         quaternion_case(j, tf, case["q"], case.get("class", "int"))
     elif sec == "quaternion_pair":
@@ -1247,16 +1611,16 @@ def replay(run, case):
     elif sec == "about_axis":
         about_axis_case(j, tf, case["angle"], case["axis"])
     elif sec == "axis_angle":
-        axis_angle_case(j, tf, case["angle"], case["axis"], case["point"])
+        axis_angle_case(j, tf, case["angle"], case["axis"], case["point"], case.get("point_form"))
     elif sec == "transform_around":
-        transform_around_case(j, tf, np.array(case["matrix"]), np.array(case["point"]))
+        transform_around_case(j, tf, np.array(case["matrix"]), np.array(case["point"]), case.get("point_form"))
     elif sec == "compose":
         compose_case(j, tf, case["scale"], case["shear"], tuple(case["angles"]), case["translate"])
     elif sec == "transform_points":
         P = np.array(case["points"], dtype=np.float64).reshape(-1, len(case["matrix"]) - 1)
         points_case(j, tf, P, np.array(case["matrix"]), case["class"], case["translate"], case.get("container", "ndarray"))
     elif sec == "planar":
-        planar_case(j, tf, case["offset"], case["theta"], case["point"], case["scale"], {})
+        planar_case(j, tf, case["offset"], case["theta"], case["point"], case["scale"], {}, case.get("point_form"))
     elif sec == "planar_to_3D":
         planar3d_case(j, tf, np.array(case["matrix"]), rng.uniform(-5, 5, size=(5, 3)))
     elif sec == "scale_and_translate":
